@@ -312,17 +312,116 @@ Fixpoint has_min_dim_op (Sout : scope) (in_loop : bool) (Sin : scope) (o : op) {
   end.
 Definition prog_has_min_dim (b : list op) : bool := existsb (has_min_dim_op [] false (defs_top b)) b.
 
+(* ---------------------------------------------------------------- MoveMemrefDims: the IR surgery *)
+(* replace_all_uses_with: every use of `d` becomes a use of `w` (definitions are untouched) *)
+Definition sbv (d w u : var) : var := if Nat.eqb u d then w else u.
+Definition sb_dim (d w : var) (x : dimarg) : dimarg :=
+  match x with DStatic z => DStatic z | DDyn v => DDyn (sbv d w v) end.
+Definition sb_p (d w : var) (p : pexpr) : pexpr :=
+  match p with
+  | PConst z => PConst z
+  | PBin k a b => PBin k (sbv d w a) (sbv d w b)
+  | PMin rs => PMin (map (fun l => (fst l, map (fun cv => (fst cv, sbv d w (snd cv))) (snd l))) rs)
+  | PDim s i => PDim (sbv d w s) (sbv d w i)
+  | PAlloc sz => PAlloc (map (sb_dim d w) sz)
+  | PSubview s sz => PSubview (sbv d w s) (map (sb_dim d w) sz)
+  end.
+Fixpoint subst_op (d w : var) (o : op) : op :=
+  match o with
+  | Def x p => Def x (sb_p d w p)
+  | Eff id args => Eff id (map (sbv d w) args)
+  | For iv lb ub st body => For iv (sbv d w lb) (sbv d w ub) (sbv d w st) (map (subst_op d w) body)
+  end.
+
+(* can_move_dim: "the Dim result is only used by Alloc operations and subview operations" *)
+Fixpoint dim_uses_ok (d : var) (o : op) : bool :=
+  match o with
+  | Def _ p => negb (memb d (uses_p p)) || match p with PAlloc _ | PSubview _ _ => true | _ => false end
+  | Eff _ args => negb (memb d args)
+  | For _ lb ub st body => negb (memb d [lb; ub; st]) && forallb (dim_uses_ok d) body
+  end.
+
+(* get_new_memref_op on a block argument builds `memref.dim source, index_constant` with the index constant OP of
+   the dim at the end of the chain: the name of that index value *)
+Fixpoint newdim_idx (fuel : nat) (Sin Sout : scope) (src idx : var) : option var :=
+  match fuel with
+  | O => None
+  | S fuel' =>
+    match lookup (Sin ++ Sout) src with
+    | None => Some idx
+    | Some (PSubview _ sizes) =>
+      match cst_of (Sin ++ Sout) idx with
+      | Some iz =>
+        match nth_error sizes (Z.to_nat iz) with
+        | Some (DDyn v) =>
+          match lookup Sin v with
+          | Some (PDim s i) => newdim_idx fuel' Sin Sout s i
+          | _ => None
+          end
+        | _ => None
+        end
+      | None => None
+      end
+    | Some _ => None
+    end
+  end.
+
+(* MoveMemrefDims.match_and_rewrite, applied at the loop `o`; `j` = position of the matched memref.dim in its
+   body; `Sc` = definitions dominating the loop; definitions of the loop level = those preceding the dim (in SSA
+   form the resolution only ever reads dominating definitions).  The replacement op is put in front of the
+   loop, every use of the dim is redirected to it and the dim is erased.  GUARDED model, used in the rule set
+   of the trace theorem; it answers None (and L1 reports a disagreement if the real pattern fires) when
+   - the resolution ends in an affine.min (F22: that rewrite changes the trace),
+   - the replacement is a constant op of the same loop level (it is moved as well; not modelled: the greedy
+     driver has hoisted such a constant before the dim is visited),
+   - the new memref.dim would use an index constant / a block argument that does not dominate the loop
+     (the real pattern then produces a use before its definition; not reachable through the driver for the
+     same reason). *)
+Definition move_dim (Sc : scope) (fresh : var) (j : nat) (o : op) : option (list op) :=
+  match o with
+  | For iv lb ub st body =>
+    match split_at j body with
+    | Some (pre, Def d (PDim src idx), post) =>
+      let Sin := defs_top pre in
+      match cst_of (Sin ++ Sc) idx with
+      | None => None                                      (* index not a constant op *)
+      | Some iz =>
+        if negb (forallb (dim_uses_ok d) post) then None   (* used by something else than alloc / subview *)
+        else
+          match resolve_dim 8 Sin Sc src iz with
+          | Some (RConst z) =>
+            Some [Def fresh (PConst z); For iv lb ub st (pre ++ map (subst_op d fresh) post)]
+          | Some (RVar v) =>
+            if in_scope Sc v then Some [For iv lb ub st (pre ++ map (subst_op d v) post)] else None
+          | Some (RNewDim s i) =>
+            match newdim_idx 8 Sin Sc src idx with
+            | Some ix =>
+              if in_scope Sc ix && negb (in_scope Sin s) && negb (Nat.eqb s iv)
+              then Some [Def fresh (PDim s ix); For iv lb ub st (pre ++ map (subst_op d fresh) post)]
+              else None
+            | None => None
+            end
+          | _ => None
+          end
+      end
+    | _ => None
+    end
+  | _ => None
+  end.
+
 (* ---------------------------------------------------------------- rules in context *)
 Inductive rule :=
 | RChangeStep            (* at the loop *)
 | RMerge (j : nat)       (* at the parent loop, inner loop = j-th op of its body *)
-| RHoist (j : nat).      (* at the loop, hoisted op = j-th op of its body *)
+| RHoist (j : nat)       (* at the loop, hoisted op = j-th op of its body *)
+| RMoveDim (j : nat).    (* at the loop, matched memref.dim = j-th op of its body *)
 
 Definition apply_rule (r : rule) (Sc : scope) (fresh : var) (o : op) : option (list op) :=
   match r with
   | RChangeStep => change_step Sc fresh o
   | RMerge j => merge_loops Sc fresh j o
   | RHoist j => hoist Sc j o
+  | RMoveDim j => move_dim Sc fresh j o
   end.
 
 (* `path` = positions from the outermost block down to the op the rule is applied at. *)
